@@ -262,6 +262,20 @@ pub fn hand_written() -> Vec<Seed> {
          fn f(t: Tri, k: u8) -> u8 { match t { B(v) if v > k => v, A => 1, _ if k == 0 => 2, _ => k } }\n",
     );
     s(
+        "scopes-if-else",
+        "fn pick(c: bool, n: i32) -> i32 { if c { let hit: i32 = n + 1; hit } else { let miss: i32 = n - 1; miss } }\n\
+         fn chain(a: i32, b: i32) -> i32 { if a < b { let lo: i32 = a; lo } else if a == b { let mid: i32 = a + b; mid } else { let hi: i32 = b; { let deep: i32 = hi * 2; deep + hi } } }\n\
+         fn shadow(c: bool, n: i32) -> i32 { let v: i32 = n; if c { let v: i32 = n * 2; v } else { v } }\n\
+         fn stmts(c: bool, s: String) -> String { let out: String = s; if c { let pre: String = \"a\"; out = pre + out; } else { let post: String = \"b\"; out = out + post; } out }\n",
+    );
+    s(
+        "scopes-match-loops",
+        "enum Sh2 { Ci(f32), Re(f32, f32), No }\n\
+         fn arms(s: Sh2) -> f32 { match s { Ci(rad) => rad, Re(wid, hei) => wid * hei, No => 0.0 } }\n\
+         fn opt(o: Option[u8], r: Result[u16, bool]) -> u16 { let base: u16 = match o { Some(small) => 1, None => 0 }; match r { Ok(okv) => { let twice: u16 = okv + okv; twice + base } Err(flag) => { if flag { base } else { 0 } } } }\n\
+         fn loops(n: u32) -> u32 { let tot: u32 = 0; for el in [1u32, n] { let sq: u32 = el * el; tot = tot + sq; } let k: u32 = 0; while k < n { let step: u32 = 1; k = k + step; } tot }\n",
+    );
+    s(
         "match-four-variants",
         "enum Q4 { A, B(u8), C(u8, bool), D }\n\
          fn f(q: Q4, k: u8) -> u8 { match q { A => 0, B(v) if v > k => v, B(v) => k, C(v, fl) => if fl { v } else { k }, D => 1 } }\n\
